@@ -310,7 +310,7 @@ class PybindWrapper:
 
         # Create __repr__ override
         # We allow all arguments to .print() and let the compiler handle type mismatches.
-        if method.name == 'print':
+        if method.name == 'print' and is_method:
             ret = self._wrap_print(ret, method, cpp_class, args_names,
                                    args_signature_with_names, py_args_names,
                                    prefix, suffix)
